@@ -4681,8 +4681,12 @@ class NetCDFRead(IORead):
                             f"{coordref.__class__.__name__}"
                         )  # pragma: no cover
 
-                        self._reference(grid_mapping_ncvar, field_ncvar)
                         ncvar_to_key[grid_mapping_ncvar] = key
+
+                    # The grid mapping variable is used by this
+                    # field/domain, also when it only provided the
+                    # datum of a vertical coordinate reference
+                    self._reference(grid_mapping_ncvar, field_ncvar)
 
         # ------------------------------------------------------------
         # Add cell measures to the field/domain
